@@ -192,26 +192,26 @@ CLAIMED.update({
 
 # rules added after the rounds of seeded defects / refactorings (appended to the level note of each claim)
 ADDED = {
- "C01": "Added in round 2: OWN-6 (no store through a *Material obtained from a mesh), OWN-7 (no Mesh assigned through a *Mesh handle the function did not create); results of external generic calls are classified (slices.Grow & co. alias their argument; an unclassified non-parameter operand is UNDECIDED).",
- "C02": "Added in round 2: GEN-BOUND is path-sensitive (one candidate interval per phi edge, counters narrowed by == / != guards, case split over boolean parameters, enclosing loops assumed to run) with interprocedural slice lengths; FAM-3 (the four families' new arrays are made with one length); GEN-LEN conditional growth (an array that can skip an element inside its loop next to a sibling with a fixed count); IDX-6 (a vertex id is never offset by a constant).",
- "C03": "Added in round 2: NEIGH-5/6, CROP-1/2, RENUM-1, DEGEN-1 (weld keeps a triangle exactly when its three rounded corners differ: five equality patterns), SPLIT-1 (the accumulator a primitive is appended to is current for the range cursor on every path), AREA-1 (RemoveNullFaces3D keeps exactly area > minArea with area = 1/2 |cross| as an identity), SHAPE-4 refuses spawned element loops whose partition is not decided, IDX-6.",
- "C04": "Added in round 2: UNW-1, CFG-1, NAME-1 (property names travel unchanged in both directions), LAY-4 for every reader builder (offset = sum of the sizes of the preceding properties), REC-1 generalised to batched reads (slot = number of records consumed before this one), SENT-1.",
- "C05": "Added in round 2: FORM-1 through selection helpers, ORD-2 over formats/obj, MAT-3 (material identity per name), ENTRY-1 (txt.Writer record typestate), SINK-1 (one sink once a buffering wrapper exists, flushed before return), NAME-2 (names travel whole), MAT-4 (the material range list is positional: patched in place or copied entry for entry).",
- "C06": "Added in round 2: DEDUP-2, REF-2 (every index slot receives a position of the array it refers to, never a loop counter over input data), MINMAX-1 start values and comparison form, INST-1 (instancing extension emitted exactly for n >= 1 with every instance's TRS), EQ-1 (de-dup equality methods compare every field that reaches the document and distinguish nil on both sides: truth table per pointer field).",
+ "C01": "Added in round 2: OWN-6 (no store through a *Material obtained from a mesh), OWN-7 (no Mesh assigned through a *Mesh handle the function did not create); results of external generic calls are classified (slices.Grow & co. alias their argument; an unclassified non-parameter operand is UNDECIDED). Added in the last rounds: OWN-6 follows by-value copies of a material that still hold its pointers; OWN-2 traces hand-offs through the returns of analysed callees and through maps kept in package variables (a slice kept in a package variable is not the caller's own: appending to it and handing it to a mesh is reported; adding an entry to the cache is not).",
+ "C02": "Added in round 2: GEN-BOUND is path-sensitive (one candidate interval per phi edge, counters narrowed by == / != guards, case split over boolean parameters, enclosing loops assumed to run) with interprocedural slice lengths; FAM-3 (the four families' new arrays are made with one length); GEN-LEN conditional growth (an array that can skip an element inside its loop next to a sibling with a fixed count); IDX-6 (a vertex id is never offset by a constant). Added in the last rounds: ORD-2 over the mesh operations and generators (no closure or pointer keeps a per-loop variable beyond its iteration under the pre-1.22 loop semantics go.mod selects), ITER-1 (no accessor iterator is drained with Next() across repetitions without Reset; zero instances on the tree, positive control on every run), FILL-1 through function literals with a floor of two fills, GEN-LEN for arrays grown by a function literal through a captured variable (elements per call x calls).",
+ "C03": "Added in round 2: NEIGH-5/6, CROP-1/2, RENUM-1, DEGEN-1 (weld keeps a triangle exactly when its three rounded corners differ: five equality patterns), SPLIT-1 (the accumulator a primitive is appended to is current for the range cursor on every path), AREA-1 (RemoveNullFaces3D keeps exactly area > minArea with area = 1/2 |cross| as an identity), SHAPE-4 refuses spawned element loops whose partition is not decided, IDX-6. Added in the last rounds: NEIGH-7 (the vertex neighbour table links per topology: list topologies advance by their group size and link inside one group, strip / loop topologies link consecutive indices), FILL-1 (shared with C02), neighbour operations that delegate to a shared implementation are judged through it with hand-over obligations, CROP-1/2 follow keep helpers.",
+ "C04": "Added in round 2: UNW-1, CFG-1, NAME-1 (property names travel unchanged in both directions), LAY-4 for every reader builder (offset = sum of the sizes of the preceding properties), REC-1 generalised to batched reads (slot = number of records consumed before this one), SENT-1. Added in the last round: CLAIM-1 identifies the claimed set by role through struct fields and same-package helpers.",
+ "C05": "Added in round 2: FORM-1 through selection helpers, ORD-2 over formats/obj, MAT-3 (material identity per name), ENTRY-1 (txt.Writer record typestate), SINK-1 (one sink once a buffering wrapper exists, flushed before return), NAME-2 (names travel whole), MAT-4 (the material range list is positional: patched in place or copied entry for entry). Added in the last round: TOK-R summarises same-package helpers with parameter binding of the token piece.",
+ "C06": "Added in round 2: DEDUP-2, REF-2 (every index slot receives a position of the array it refers to, never a loop counter over input data), MINMAX-1 start values and comparison form, INST-1 (instancing extension emitted exactly for n >= 1 with every instance's TRS), EQ-1 (de-dup equality methods compare every field that reaches the document and distinguish nil on both sides: truth table per pointer field). Added in the last rounds: MODE-1 (a primitive's mode follows the mesh topology on cache-hit and cache-miss paths alike), TRS-1 (node translation / rotation / scale reach the document through copies only), INST-2 (a flag that omits an instancing attribute is monotone over the instance loop); REF-2 follows helper returns, EQ-1 executes generic helpers.",
  "C07": "Added in round 2: HDR-FREE (no branch, allocation size, error or panic depends on the 80 header bytes), LATCH-1 (the normals flag is monotone over the record loop and raised by any stored normal), ATTR-OPAQUE (nothing depends on the attribute word), record stores execute in every iteration.",
- "C08": "Added in round 2: LAY-10, NAME-1, batched REC-1, LAY-4 for every builder (shared with C04), SENT-1 (offset sentinel -1 and found-tests that accept offset 0), LINE-1 (every readLine path strips CR), BYTES-1 (payload bytes reach the decoder untouched), TOKSEP-1 (ASCII rows split on runs of white space), UNW-1.",
- "C09": "Added in round 2: DEGEN-1 on the stitch pass, FIELD-TREE/IDX/ALL/CAP (member tables are subscripted by the ids the spatial query returns, every hit is folded, no capture of a per-loop table), FIELD-OUT (finite non-inside default outside all members; link to SYM-ALG), RANGE-1 and SYM-STRIDE follow pure in-package helpers.",
- "C10": "Added in round 2: CONC-7 (Add/Done pairing: no path from wg.Add to the loop continuation avoids the go statement), SEQ-4 (the parallel variant accumulates into canvas cells exactly as the sequential sibling), SEQ-2/3 inline straight-line helpers.",
- "C11": "Added in round 2: NODE-10 (every non-error return of a mutator lies behind a version bump), NODE-11 (decode into a fresh target, commit after success), REFL-2 (reflective enumeration stores a distinct allocation per key).",
- "C12": "Added in round 2: PERSIST-6/7 (edit operations), PERSIST-8 (array-input order: enumeration in index order, numeric or index-free sort key, loader appends), PERSIST-9 (payload types self-delimiting — two known findings in the jbtf dependency), PERSIST-10 (ids unique), PERSIST-11 (no stale cache of the wiring), PERSIST-12 (decode applies what was saved whatever its value), PERSIST-13 (metadata round trip is the identity), PERSIST-14 (ToJSON is computed from the live fields, or every setter invalidates the memo), SAVE-1/2/3 (file replaced with the schema bytes, Save always writes, fresh encoder per save).",
+ "C08": "Added in round 2: LAY-10, NAME-1, batched REC-1, LAY-4 for every builder (shared with C04), SENT-1 (offset sentinel -1 and found-tests that accept offset 0), LINE-1 (every readLine path strips CR), BYTES-1 (payload bytes reach the decoder untouched), TOKSEP-1 (ASCII rows split on runs of white space), UNW-1. Added in the last round: CLAIM-2 summarises same-package membership helpers.",
+ "C09": "Added in round 2: DEGEN-1 on the stitch pass, FIELD-TREE/IDX/ALL/CAP (member tables are subscripted by the ids the spatial query returns, every hit is folded, no capture of a per-loop table), FIELD-OUT (finite non-inside default outside all members; link to SYM-ALG), RANGE-1 and SYM-STRIDE follow pure in-package helpers. Added in the last rounds: DOM-1 (declared field domains: sizes non-negative by construction, point boxes expanded by at least the radius), COMB-1 (the fold over the members containing the point visits every member and folds with min), SDF-REF (marching calls only sdf functions C19 decides); per-corner arrays followed one level into a single-site helper.",
+ "C10": "Added in round 2: CONC-7 (Add/Done pairing: no path from wg.Add to the loop continuation avoids the go statement), SEQ-4 (the parallel variant accumulates into canvas cells exactly as the sequential sibling), SEQ-2/3 inline straight-line helpers. Added in the last round: SYM-PART total-non-negative (the partitioned total is >= 0 on every path; found and fixed: PrimitiveCount -1 on an empty line mesh, /repo a5970ab).",
+ "C11": "Added in round 2: NODE-10 (every non-error return of a mutator lies behind a version bump), NODE-11 (decode into a fresh target, commit after success), REFL-2 (reflective enumeration stores a distinct allocation per key). Added in the last round: unexported identifiers are resolved by role from exported anchors.",
+ "C12": "Added in round 2: PERSIST-6/7 (edit operations), PERSIST-8 (array-input order: enumeration in index order, numeric or index-free sort key, loader appends), PERSIST-9 (payload types self-delimiting — two known findings in the jbtf dependency), PERSIST-10 (ids unique), PERSIST-11 (no stale cache of the wiring), PERSIST-12 (decode applies what was saved whatever its value), PERSIST-13 (metadata round trip is the identity), PERSIST-14 (ToJSON is computed from the live fields, or every setter invalidates the memo), SAVE-1/2/3 (file replaced with the schema bytes, Save always writes, fresh encoder per save). Added in the last round: unexported identifiers are resolved by role from exported anchors.",
  "C13": "Added in round 2: FRESH-1 on both sides (ApplyMessage does not alias the message, ToMessage returns fresh storage), CONC-5 (unlock deferred before any call that can run node code), CONC-6 (one snapshot per response), CONC-8 (a response is built from this request's own entry-point call), CONC-9 (no go statement in the evaluation call tree of package nodes), VIS-1 (every successful ApplyMessage stores into what Value() reads), VIS-2 (every success path of the POST handler has called UpdateParameter with this request's body), CONC-10 (a node is marked up to date only after Process returned: no such store before the call or in a deferred function), CONC-11 (per-request output state: no response written through a long-lived writer).",
- "C14": "Added in round 2: PRE-3 (the completeness check compares the record counter), CNT-1 (a declared count is never clamped to the data available), REC-WHOLE (count-less record streams decode only windows proven to lie within the bytes read).",
- "C15": "Added in round 2: HALF-2, SH-COUNT, DEQ-2 (rotation real part = sqrt(max(0, 1 - |xyz|^2)) as an identity with the clamp), REC-ALL (every record read yields one splat, whatever its bytes).",
- "C16": "Added in round 2: IDX-1/3/6 on the primitive scopes (tri.go, line.go, point.go), ATTR-2 (trees are scoped over the attribute parameter), CONS-1 on array-typed bucket tables, IDENT-2 (element i of the tree is primitive i), ATTR-3 (the Scope call tree reads attribute data through the attribute parameter only), BOX-RAY (the ray/box slab test implies or refutes max(tmin, near) < min(tmax, far) on every path; d = 0 / NaN / rounding not decided).",
+ "C14": "Added in round 2: PRE-3 (the completeness check compares the record counter), CNT-1 (a declared count is never clamped to the data available), REC-WHOLE (count-less record streams decode only windows proven to lie within the bytes read). Added in the last rounds: TOK-2 (a missing token is an error, never a default), TOK-3 (arrays of a counted line-record reader are stored on every accepted line or on none; found and fixed: pts optional columns, /repo b9a5c65).",
+ "C15": "Added in round 2: HALF-2, SH-COUNT, DEQ-2 (rotation real part = sqrt(max(0, 1 - |xyz|^2)) as an identity with the clamp), REC-ALL (every record read yields one splat, whatever its bytes). Added in the last round: PLANE-1 follows the planes through Read's same-package call tree, roles by carrier field.",
+ "C16": "Added in round 2: IDX-1/3/6 on the primitive scopes (tri.go, line.go, point.go), ATTR-2 (trees are scoped over the attribute parameter), CONS-1 on array-typed bucket tables, IDENT-2 (element i of the tree is primitive i), ATTR-3 (the Scope call tree reads attribute data through the attribute parameter only), BOX-RAY (the ray/box slab test implies or refutes max(tmin, near) < min(tmax, far) on every path; d = 0 / NaN / rounding not decided). Added in the last round: IDENT-1 accumulator-parameter form (outside callers start it empty, the recursion continues the running result).",
  "C17": "Added in round 2: FromTheta = (cos t/2, sin t/2 * a/|a|) with sin/cos uninterpreted (single relation sin^2+cos^2=1), partition identities LO(0)=0, HI(w)=LO(w+1), HI(K-1)=len for spawned element loops.",
  "C19": "",
- "C18": "Added after the first seeds: QUAD-DIMS (each face of the quad cube is sized by the two dimensions perpendicular to its axis and offset by half the third), LATITUDE (angle arguments: longitude step x ring size = 2 pi, latitude step x (rings + 1) = pi), CAP-FLIP-AXIS (a flipped cap is a half turn about the axis that carries cos in ring and rim), SPHERE-RADIUS (every vertex the sphere constructors emit satisfies |p|^2 = r^2).",
- "C20": "Added after the first seeds: DEL-INPUT (the input slice is never permuted or written before the positions are read), DEL-SAME-POINTS (the predicates run on the input coordinates up to a uniform similarity).",
+ "C18": "Added after the first seeds: QUAD-DIMS (each face of the quad cube is sized by the two dimensions perpendicular to its axis and offset by half the third), LATITUDE (angle arguments: longitude step x ring size = 2 pi, latitude step x (rings + 1) = pi), CAP-FLIP-AXIS (a flipped cap is a half turn about the axis that carries cos in ring and rim), SPHERE-RADIUS (every vertex the sphere constructors emit satisfies |p|^2 = r^2). Added in the last round: helpers of modeling/primitives are interpreted with parameter binding while a generator is decided.",
+ "C20": "Added after the first seeds: DEL-INPUT (the input slice is never permuted or written before the positions are read), DEL-SAME-POINTS (the predicates run on the input coordinates up to a uniform similarity). Added in the last round: DEL-SUPER-FOLD (the bounding-box fold is a true running min / max for all orderings including the +-Inf start), DEL-STATE (no package-level mutable state in the call tree), DEL-ORIENT-DIFF (every product in the orientation and in-circle predicates multiplies translation-invariant operands: decides the algebraic form, not the rounding error).",
 }
 
 NOT_YET = "check not built yet in this round (design in DESIGN.md section 4); not claimed until its rules run clean on the tree"
